@@ -3,7 +3,18 @@
 // skewed independently).  The protected calculateNextLocalTimeSec is reached through probe
 // subclasses.  One op per loop pass; output format = lean/Driver/C20.lean.
 #include "vh.h"
+// gettimeofday() with a scripted failure: harness/vtime.h defines the virtual-clock gettimeofday; it is compiled here under another
+// name and wrapped, so that the op file decides the kernel's answer (op `gtod 0|1`, callback act `gt0|gt1`)
+#include <sys/time.h>
+#include <cerrno>
+#define gettimeofday vt_gettimeofday_virtual
 #include "vtime.h"
+#undef gettimeofday
+static volatile bool gtod_fail = false;
+extern "C" int gettimeofday(struct timeval *tv, void *tz) {
+    if (gtod_fail) { errno = EFAULT; return -1; }
+    return vt_gettimeofday_virtual(tv, tz);
+}
 #include "loopdrv.h"
 #include <unistd.h>
 #include <algorithm>
@@ -114,17 +125,28 @@ static void reset_all() {
     }
     cal.reset(new WorkdayCalendar());
     pass_callbacks = 0;
+    gtod_fail = false;
     vt::set_wall_ms(kWall0);
 }
 
+// the user's side of the raw-pointer contract (workday_alarm.h): enable() of a workday alarm goes through its calendar
+static bool enable_needs_dead_cal(size_t j) {
+    return slots[j].kind == 'd' && !cal && slots[j].a() && !slots[j].a()->isEnabled() && st[j] == 'I';
+}
+static bool any_workday_enabled() {
+    for (size_t i = 0; i < kSlots; ++i) if (slots[i].kind == 'd' && slots[i].a() && slots[i].a()->isEnabled()) return true;
+    return false;
+}
+
 static void run_act(const Act &a) {
-    if (a.kind == "cm") { cal->updateWeekMask((uint8_t)a.n); return; }
-    if (a.kind == "cs") { cal->updateSpecialDays(a.sp); return; }
+    if (a.kind == "gt") { gtod_fail = (a.n == 0); return; }
+    if (a.kind == "cm") { if (cal) cal->updateWeekMask((uint8_t)a.n); return; }
+    if (a.kind == "cs") { if (cal) cal->updateSpecialDays(a.sp); return; }
     Alarm *al = slots[a.j].a();
     if (!al) return;
     if (a.kind == "rf") al->refresh();
     else if (a.kind == "dis") al->disable();
-    else if (a.kind == "en") al->enable();
+    else if (a.kind == "en") { if (!enable_needs_dead_cal(a.j)) al->enable(); }
     else if (a.kind == "del") { delete al; slots[a.j] = Slot(); st[a.j] = 'N'; }
     else if (a.kind == "cl") { al->cleanup(); al->setCallback(make_cb(a.j)); st[a.j] = 'N'; }
     else if (a.kind == "in") do_init(a.j, a.iv, a.mask, a.wd);
@@ -192,6 +214,7 @@ static bool script_of(const std::string &w, size_t self, std::vector<Act> &out) 
         else if (it.compare(0, 3, "del") == 0 && slot_of(tail(3), a.j) && a.j != self) a.kind = "del";
         else if (it.compare(0, 2, "cm") == 0 && bounded(tail(2), 255, v)) { a.kind = "cm"; a.n = v; }
         else if (it.compare(0, 2, "cs") == 0 && specials_of(tail(2), a.sp, '+')) a.kind = "cs";
+        else if (it == "gt0" || it == "gt1") { a.kind = "gt"; a.n = it == "gt1"; }
         else if (it.compare(0, 2, "cl") == 0 && slot_of(tail(2), a.j)) a.kind = "cl";
         else if (it.compare(0, 2, "tz") == 0) {          // tz<j>:<minutes>
             auto p = split(tail(2), ':');
@@ -338,7 +361,7 @@ int main(int argc, char **argv) {
         } else if (op == "tz" && w.size() == 3 && slot_of(w[1], i) && int_of(w[2], -kTzMax, kTzMax, iv) && slots[i].a()) {
             slots[i].a()->setTimezone((int)iv);
             std::cout << state_line(1) << "\n";
-        } else if (op == "en" && w.size() == 2 && slot_of(w[1], i) && slots[i].a()) {
+        } else if (op == "en" && w.size() == 2 && slot_of(w[1], i) && slots[i].a() && !enable_needs_dead_cal(i)) {
             bool ok = slots[i].a()->enable();
             std::cout << state_line(ok) << "\n";
         } else if (op == "dis" && w.size() == 2 && slot_of(w[1], i) && slots[i].a()) {
@@ -363,10 +386,16 @@ int main(int argc, char **argv) {
         } else if (op == "cb" && w.size() == 2 && slot_of(w[1], i) && slots[i].a()) {
             slots[i].a()->setCallback(make_cb(i));
             std::cout << state_line(1) << "\n";
-        } else if (op == "calmask" && w.size() == 2 && bounded(w[1], 255, n)) {
+        } else if (op == "gtod" && w.size() == 2 && bool_of(w[1], b)) {
+            gtod_fail = !b;
+            std::cout << state_line(1) << "\n";
+        } else if (op == "caldel" && w.size() == 1 && cal && !any_workday_enabled()) {
+            cal.reset();                                        // the calendar dies; alarms that are not enabled may outlive it
+            std::cout << state_line(1) << "\n";
+        } else if (op == "calmask" && w.size() == 2 && bounded(w[1], 255, n) && cal) {
             cal->updateWeekMask((uint8_t)n);
             std::cout << state_line(1) << "\n";
-        } else if (op == "calsp" && w.size() == 2 && specials_of(w[1], sp)) {
+        } else if (op == "calsp" && w.size() == 2 && specials_of(w[1], sp) && cal) {
             cal->updateSpecialDays(sp);
             std::cout << state_line(1) << "\n";
         } else if (op == "adv" && w.size() == 2 && bounded(w[1], 40000000000ULL, n) && (uint64_t)vt::wall_ms() + n <= kMaxWallMs) {
